@@ -94,15 +94,17 @@ Definition cfg_setlist (w : pw) (c : cfg) (name : str) (vs : list value) :=
 Definition cfg_addlist (w : pw) (c : cfg) (name : str) (vs : list value) :=
   with_opt w c name (fun w _ o =>
     if negb (oflag o CFGF_LIST) then (w, o, FAIL)
-    else let '(w1, o2) := addlist_internal w o vs in (w1, o2, OK)).
+    else let '(w1, o2) := addlist_internal w (o_clrf o CFGF_RESET) vs in (w1, o2, OK)).
 
 (* cfg_opt_setmulti *)
 Definition opt_setmulti (fuel : nat) (w : pw) (c : cfg) (o : opt) (vals : list (option str)) : pw * opt * Z :=
   match vals with
   | [] => (w, o, FAIL)
   | _ =>
-    let old := o in
-    let fresh := set_vals o [] in
+    (* the annotation is detached while the values are exchanged *)
+    let comment := o_comment o in
+    let old := set_comment o None in
+    let fresh := set_vals old [] in
     let res :=
       (fix go (vs : list (option str)) (w : pw) (o : opt) : pw * opt * bool :=
          match vs with
@@ -112,17 +114,14 @@ Definition opt_setmulti (fuel : nat) (w : pw) (c : cfg) (o : opt) (vals : list (
          end) vals w fresh in
     let '(w1, o1, ok) := res in
     if ok then
-      (* cfg_free_value(&old): the saved copy shares the annotation pointer with the live option *)
       let w2 := log_frees w1 (frees_o old) in
-      let dangling := match o_comment old with Some _ => negb (oflag old CFGF_RESET) | None => false end in
-      let w3 := if dangling then set_crash w2 "dangling-comment:cfg_opt_setmulti" else w2 in
-      (w3, o_setf o1 CFGF_MODIFIED, OK)
+      (w2, o_setf (set_comment o1 comment) CFGF_MODIFIED, OK)
     else
       let '(o2, fr) := free_value o1 in
       let w2 := log_frees w1 fr in
       let fl := N.lor (clrf (clrf (o_flags o2) CFGF_RESET) CFGF_MODIFIED)
                       (N.land (o_flags old) (N.lor CFGF_RESET CFGF_MODIFIED)) in
-      (w2, set_flags (set_vals o2 (o_vals old)) fl, FAIL)
+      (w2, set_comment (set_flags (set_vals o2 (o_vals old)) fl) comment, FAIL)
   end.
 
 Definition cfg_setmulti (fuel : nat) (w : pw) (c : cfg) (name : str) (vals : list (option str)) :=
@@ -168,6 +167,7 @@ Definition cfg_addtsec (fuel : nat) (w : pw) (c : cfg) (name : str) (title : opt
         match get_opt c r with
         | None => (w, c, false)
         | Some o =>
+            if negb (kind_eqb (o_kind o) KSec) then (w, c, false) else
             let '(w1, o1, res) := setopt strtod_o fuel w c o title in
             match res with
             | None => (w1, put_opt c r o1, false)
